@@ -91,9 +91,14 @@ def main() -> int:  # noqa: C901, PLR0912, PLR0915
         errf.seek(0)
         se = errf.read()
         errf.close()
+        d = None
         if os.path.exists(out):
-            with open(out) as fh:
-                d = json.load(fh)
+            try:
+                with open(out) as fh:
+                    d = json.load(fh)
+            except ValueError:
+                d = None
+        if d is not None:
             shards.append(d)
             if d["status"] != "ok":
                 harness_errors.append(d["error"])
